@@ -48,7 +48,7 @@ META = {
     'components_real': ['TapeRecorder.play, input/output decorators in playback mode', 'MemoryRecording', 'all three cassettes'],
     'components_stub': ['S3 bucket', 'service and environment', 'spy around the cassette'],
     'budgets': {'quick': {'seconds': 30}, 'thorough': {'seconds': 480}},
-    'required_probes': {'quick': ['table_row'], 'thorough': ['table_row', 'answered_by_fallback', 'run_original', 'substitute_falsy', 'substitute_callable',
+    'required_probes': {'quick': ['table_row'], 'thorough': ['table_row', 'run_original_body_calls_intercepted_functions', 'library_logging_at_debug_level', 'answered_by_fallback', 'run_original', 'substitute_falsy', 'substitute_callable',
                                                               'missing_key_error', 'default_result', 'missing_result_error', 'unknown_id', 'three_replays']},
 }
 
@@ -58,7 +58,11 @@ def run_tape(tape):
         mode = tape.draw(4)
         if mode == 1:
             return table_row(tape, clock)
-        return random_pair(tape, clock)
+        debug = tape.draw(4) == 3
+        with seams.debug_logging(debug):
+            if mode == 3 and tape.draw(2) == 1:
+                return nested_in_run_original(tape, clock)
+            return random_pair(tape, clock, debug)
 
 
 # ------------------------------------------------------------------------------------------ reference model
@@ -416,8 +420,10 @@ def table_row(tape, clock):
 
 
 # ------------------------------------------------------------------------------------------ random pairs
-def random_pair(tape, clock):
+def random_pair(tape, clock, debug=False):
     run = Run(PROP)
+    if debug:
+        run.probe('library_logging_at_debug_level')
     V.set_flavour(tape)
     spec = R.gen_service(tape, run, max_steps=12, max_inputs=3, max_outputs=2, threads=False)
     for i in spec.inputs:
@@ -506,6 +512,128 @@ def random_pair(tape, clock):
     return run
 
 
+def nested_in_run_original(tape, clock):
+    """A new high-level input wrapped around already recorded low-level reads: it is absent from the recording and opted
+    in to run its original, and that original itself calls intercepted inputs and an intercepted output.  Only the
+    opted-in body may run; every inner call is still answered from the recording or by its own policy."""
+    run = Run(PROP)
+    run.probe('run_original_body_calls_intercepted_functions')
+    run.nontrivial = True
+    store = C.gen_store(tape, clock)
+    pool = [1, 'usd', (2, 'x'), 0, '', 'eur', 7.5, None]
+    xs = tape.shuffle(pool)[:1 + tape.draw(3)]
+    absent = tape.choice(['none', 'strict', 'substitute', 'substitute_falsy', 'run_original'])
+    x_absent = ('never', tape.draw(3))
+    static_low = bool(tape.draw(2))
+    kind_of_high = tape.choice(['instance', 'static'])
+    out_recorded = bool(tape.draw(2))       # P sent one output through `emit`, so call #1 has a recorded result
+    low_opts = {}
+    if absent in ('substitute', 'substitute_falsy'):
+        low_opts['value_when_missing'] = ('subst', 1) if absent == 'substitute' else 0
+    if absent == 'run_original':
+        low_opts['run_intercepted_when_missing'] = True
+    journal = []
+    phase = {'name': 'rec'}
+    holder = {}
+
+    def build(recorder):
+        def low_body(x):
+            journal.append(('low', x))
+            return (phase['name'], x)
+
+        def high_body(svc, req):
+            journal.append(('high',))
+            vals = [svc.low(x) for x in req]
+            return (vals, svc.emit('total', len(vals)))
+
+        class Svc(object):
+            @recorder.operation()
+            def execute(self, req):
+                if phase['name'] == 'rec':
+                    got = [self.low(x) for x in req]
+                    return (got, self.emit('total', len(got)) if out_recorded else None)
+                return self.high(req)
+
+            if static_low:
+                low = staticmethod(recorder.static_intercept_input('low', **low_opts)(low_body))
+            else:
+                @recorder.intercept_input('low', **low_opts)
+                def low(self, x):
+                    return low_body(x)
+
+            @recorder.intercept_output('emit', fail_on_no_recorded_result=False, default_result_when_not_recorded='dflt')
+            def emit(self, what, n):
+                journal.append(('emit', what, n))
+                return 'sent-%s' % phase['name']
+
+            if kind_of_high == 'static':
+                high = staticmethod(recorder.static_intercept_input('high', run_intercepted_when_missing=True)(
+                    lambda req: high_body(holder['current'], req)))
+            else:
+                @recorder.intercept_input('high', run_intercepted_when_missing=True)
+                def high(self, req):
+                    return high_body(self, req)
+        R.D.register('Svc', Svc)
+        return Svc
+    try:
+        cas = store.open()
+        recorder = TapeRecorder(cas)
+        recorder.enable_recording()
+        Svc = build(recorder)
+        svc = Svc()
+        holder['current'] = svc
+        out = R.call_outcome(lambda: svc.execute(list(xs)))
+        ids = list(store.open(read_only=True).iter_recording_ids('Svc'))
+        if out.kind != 'return' or len(ids) != 1:
+            run.violate('recording_saved', 'not-saved', 'fault-free recording failed: %r %s' % (out, ids))
+            return run
+        # ---- replay with the new high-level input
+        phase['name'] = 'live'
+        del journal[:]
+        cas2 = store.open(read_only=True)
+        spy = R.SpyCassette(cas2, run)
+        rep_recorder = TapeRecorder(spy)
+        if tape.draw(2):
+            rep_recorder.enable_recording()
+        Svc2 = build(rep_recorder)
+        svc2 = Svc2()
+        holder['current'] = svc2
+        req = list(xs)
+        if absent != 'none':
+            req.insert(tape.draw(len(req) + 1), x_absent)
+        res = R.call_outcome(lambda: rep_recorder.play(ids[0], lambda recording: svc2.execute(list(req))))
+        run.say('recorded low(%s)%s; replay asks high(%s) (absent from the recording, runs its original), low is %s, policy for the absent low call: %s' % (
+            V.srepr(xs), ' and emit' if out_recorded else '', V.srepr(req), 'static' if static_low else 'instance', absent))
+        exp_journal = [('high',)] + ([('low', x_absent)] if absent == 'run_original' else [])
+        if absent == 'strict':
+            ok = res.kind == 'raise' and isinstance(res.exc, RecordingKeyError)
+            run.check(ok, 'policy_outcome', 'expected-missing-key-error:nested-in-run-original',
+                      lambda: 'the run-original body asked for an input that is not recorded and has no policy: expected RecordingKeyError, got %r' % (res,))
+            exp_journal = [('high',)]
+        else:
+            exp_vals = []
+            for x in req:
+                if x == x_absent and absent != 'none':
+                    exp_vals.append({'substitute': ('subst', 1), 'substitute_falsy': 0, 'run_original': ('live', x)}[absent])
+                else:
+                    exp_vals.append(('rec', x))
+            exp_emit = 'sent-rec' if out_recorded else 'dflt'
+            if res.kind != 'return':
+                run.violate('policy_outcome', 'play-raised:%s@nested-in-run-original' % type(res.exc).__name__, 'play raised %r' % (res.exc,))
+            else:
+                outs = [o for o in res.value.playback_outputs if TapeRecorder.OPERATION_OUTPUT_ALIAS in o.key]
+                got = outs[0].value['args'][0] if outs else None
+                run.check(V.canon(got) == V.canon((exp_vals, exp_emit)), 'policy_outcome', 'wrong-answer:nested-in-run-original',
+                          lambda: 'inside the run-original body the calls were answered %s, recording and policy give %s' % (V.short(got, 300), V.short((exp_vals, exp_emit), 300)))
+        run.check(journal == exp_journal, 'bodies_not_executed', 'unexpected-body:nested-in-run-original' if len(journal) > len(exp_journal) else 'missing-body:nested-in-run-original',
+                  lambda: 'wrapped bodies executed in replay: %s, policy allows exactly %s' % (journal, exp_journal))
+        run.check(not spy.mutations(), 'cassette_untouched', 'cassette-call:nested', lambda: 'play() reached the cassette with %s' % (spy.mutations(),))
+        run.ev('nested', V.srepr(xs), V.srepr(req), absent, static_low, kind_of_high, out_recorded, store.describe(), [v.signature for v in run.violations])
+    finally:
+        store.close()
+    return run
+
+
 def run_index(i, seed, tier, emit):
     mod = sys.modules[__name__]
     if i < NCHUNKS:
@@ -513,5 +641,5 @@ def run_index(i, seed, tier, emit):
             t = Tape(seed, prefix=[1, row])
             emit(safe_run_tape(mod, t), t)
         return
-    t = Tape(seed, prefix=[0])
+    t = Tape(seed, prefix=[[0, 0, 3][i % 3]])
     emit(safe_run_tape(mod, t), t)
